@@ -11,6 +11,7 @@ import CV.Drv.WebSocket
 import CV.Drv.Http
 import CV.Drv.Poller
 import CV.Drv.Wake
+import CV.Drv.Stream
 /-
 cvdriver <model> : reads op lines on stdin, answers one line per op on stdout.
 Imports only CV.Model.* / CV.Drv.* (no Mathlib) so that it links as an executable.
@@ -22,7 +23,7 @@ def machines : List (String × Machine) :=
     ("staticpath", staticPathMachine), ("ranges", rangesMachine),
     ("auth", C20.authMachine), ("session", C20.sessionMachine), ("vhost", C20.vhostMachine),
     ("httpresp", httprespMachine), ("ws", wsMachine),
-    ("http", httpMachine), ("poller", pollerMachine), ("wake", wakeMachine) ]
+    ("http", httpMachine), ("poller", pollerMachine), ("wake", wakeMachine), ("stream", streamMachine) ]
 
 def main (args : List String) : IO UInt32 := do
   match args with
